@@ -236,11 +236,14 @@ def cli_build(root):
 # --------------------------------------------------------------------------- findings
 
 def load_known(root, pid):
-    p = os.path.join(root, "known_findings.json")
-    if not os.path.exists(p):
-        return []
-    data = json.load(open(p))
-    return [f for f in data.get("findings", []) if f.get("property") == pid and f.get("status", "open") == "open"]
+    """Open findings of a property: known_findings.json plus known_findings.d/*.json (same format)."""
+    out = []
+    for p in [os.path.join(root, "known_findings.json")] + sorted(glob.glob(os.path.join(root, "known_findings.d", "*.json"))):
+        if not os.path.exists(p):
+            continue
+        data = json.load(open(p))
+        out += [f for f in data.get("findings", []) if f.get("property") == pid and f.get("status", "open") == "open"]
+    return out
 
 
 def match_known(known, cls, msg):
